@@ -153,6 +153,12 @@ var effContracts = map[string]effContract{
 	"(encoding/binary.bigEndian).PutUint16": {writes: []int{1}},
 	"(encoding/binary.bigEndian).PutUint32": {writes: []int{1}},
 	"(encoding/binary.bigEndian).PutUint64": {writes: []int{1}},
+	"(encoding/binary.littleEndian).Uint16":    {pure: true},
+	"(encoding/binary.littleEndian).Uint32":    {pure: true},
+	"(encoding/binary.littleEndian).Uint64":    {pure: true},
+	"(encoding/binary.littleEndian).PutUint16": {writes: []int{1}},
+	"(encoding/binary.littleEndian).PutUint32": {writes: []int{1}},
+	"(encoding/binary.littleEndian).PutUint64": {writes: []int{1}},
 	"fmt.Errorf":                        {pure: true},
 	"fmt.Sprintf":                       {pure: true},
 	"fmt.Sprint":                        {pure: true},
